@@ -298,4 +298,28 @@ def main_wrapper(fn):
     except subprocess.TimeoutExpired as e:
         print(f"INFRASTRUCTURE-FAILURE: timeout {e}", file=sys.stderr)
         sys.exit(2)
+    except Exception as e:  # noqa
+        # an exception the harness did not anticipate.  If it was raised INSIDE the code under test (a frame of the repository is the
+        # innermost one) the property is no longer shown to hold on this tree: report it as a violation whose replay is the traceback
+        # (no minimised input); anything else is a defect of the machinery: exit 2, never a verdict.
+        import traceback
+        tb = traceback.extract_tb(e.__traceback__)
+        repo = os.path.realpath(REPO)
+        inner = [fr for fr in tb if os.path.realpath(fr.filename).startswith(repo + os.sep)]
+        prop = os.path.basename(sys.argv[0]).split(".")[0].upper()
+        if inner and os.path.realpath(tb[-1].filename).startswith(repo + os.sep) and prop.startswith("C") and prop[1:].isdigit():
+            os.makedirs(REPLAY, exist_ok=True)
+            seed = os.environ.get("VERIF_SEED", "0")
+            path = os.path.join(REPLAY, f"{prop}_{seed}_uncaught.json")
+            with open(path, "w") as f:
+                json.dump(dict(property=prop, signature=f"uncaught:{type(e).__name__}@{inner[-1].name}", seed=seed,
+                               tier=os.environ.get("VERIF_TIER", "quick"), no_failing_input_found=True,
+                               replay=dict(what="the code under test raised an exception at a call the harness expects to succeed; re-run "
+                                                "the check with the same seed to reproduce", error=repr(e)[:500],
+                                           traceback=traceback.format_exc()[-3000:])), f, indent=1)
+            print(f"VIOLATION property={prop} replay={path} no-failing-input-found")
+            sys.stdout.flush()
+            sys.exit(1)
+        print("INFRASTRUCTURE-FAILURE: unexpected exception in the harness\n" + traceback.format_exc()[-3000:], file=sys.stderr)
+        sys.exit(2)
     sys.exit(rc)
